@@ -8,6 +8,7 @@ import Quanto.OpsWire
 import Quanto.Spec.C05
 import Quanto.Linear
 import Quanto.Calib
+import Quanto.ModuleWire
 open Quanto
 
 /-- scalar-or-per-element lookup -/
@@ -247,6 +248,22 @@ def handle (toks : List String) : String :=
         let r := acc.1.step ev
         (r, acc.2 ++ [s!"{r.g.preHooks.length},{r.g.postHooks.length},{r.g.modeStack.length}"])) (r0, [])
       ";".intercalate outs
+  -- C08: quant08 tree filter weights activations
+  | ["quant08", tree, filt, w, a] =>
+      let (m, _) := parseMod tree.toList
+      let f : Option (List Nat) := if filt == "none" then none else some (parseNatList filt)
+      showMod (quantizeTree ⟨f, qtOfName? w, qtOfName? a⟩ m)
+  | ["fwd08", kind, acts, inp, outq] =>
+      let ik : InKind := match inp with | "float" => .float | "same" => .quantSameQtype | _ => .quantOther
+      let oq : Option Bool := match outq with | "same" => some true | "other" => some false | _ => none
+      let tr := forwardTrace (kindOfName kind) (acts == "1") ik oq
+      ",".intercalate (tr.map fun s => match s with
+        | .requantInput => "requantInput" | .quantizeInput => "quantizeInput" | .qforward => "qforward"
+        | .requantOutput => "requantOutput" | .quantizeOutput => "quantizeOutput")
+  | ["store09", q, rows, cols, gs] =>
+      let qt := (QType.ofName q).getD .qint8
+      let g : Option Nat := if gs == "none" then none else some gs.toNat!
+      s!"{frozenPayloadBytes qt rows.toNat! cols.toNat! g} {frozenScaleCount qt rows.toNat! cols.toNat! g}"
   -- C04
   | ["pack", bits, shape, data] =>
       let t : T Nat := ⟨parseShape shape, (parseNatList data).toArray⟩
